@@ -49,9 +49,10 @@ package querylog
 
 //@ func (q *qLogFile) ReadNext() (r0 string, r1 error)
 //@   property C20
-//@   requires window(q) && inWindow(q) && !held(q.lock) && 0 <= q.position && q.position <= os.fsize(q.file)
+//@   requires !held(q.lock)
+//@   requires window(q) && inWindow(q) && 0 <= q.position && q.position <= os.fsize(q.file)
 //@   requires short-line: q.position > 0 ==> q.position - lineStart(q.file, q.position) < 16384
-//@   modifies q.position, q.bufferStart, q.buffer, q.bufferLen, elems(q.buffer), fpos, LockW
+//@   modifies q.position, q.bufferStart, q.buffer, q.bufferLen, elems(q.buffer), fpos
 //@   ensures eof: old(q.position) == 0 ==> r1 == io.EOF && q.position == 0
 //@   ensures line: r1 == nil ==> lineIs(r0, q.file, lineStart(q.file, old(q.position)), old(q.position))
 //@   ensures moves-to-previous-line: r1 == nil ==> q.position == max(0, lineStart(q.file, old(q.position)) - 1)
@@ -61,7 +62,7 @@ package querylog
 //@ func (q *qLogFile) SeekStart() (r0 int64, r1 error)
 //@   property C20
 //@   requires !held(q.lock)
-//@   modifies q.position, q.buffer, LockW
+//@   modifies q.position, q.buffer
 //@   ensures r1 == nil ==> q.buffer == nil && q.position == max(0, os.fsize(q.file) - 1) && r0 == q.position
 //@   ensures !held(q.lock)
 
@@ -107,8 +108,9 @@ package querylog
 
 //@ func (q *qLogFile) seekTS(ctx context.Context, logger *slog.Logger, timestamp int64) (pos int64, depth int, err error)
 //@   property C20
-//@   requires !held(q.lock) && shortLines(q.file)
-//@   modifies q.buffer, q.position, fpos, LockW
+//@   requires !held(q.lock)
+//@   requires shortLines(q.file)
+//@   modifies q.buffer, q.position, fpos
 //@   ensures found: err == nil ==> pos == q.position && 0 <= pos && pos <= os.fsize(q.file) && (pos == os.fsize(q.file) || os.fbyte(q.file, pos) == 10) && lineTS(q.file, lineStart(q.file, pos)) == timestamp
 //@   ensures buffer-reset: q.buffer == nil
 //@   ensures !held(q.lock)
@@ -179,3 +181,6 @@ package querylog
 //@ func (l *queryLog) initWeb()
 //@   property C11
 //@   modifies *
+
+// ---- C05: lock discipline (ghost lock state; every access to a guarded field in the package is an obligation) ----
+//@ guarded queryLog.buffer by bufferLock
